@@ -115,6 +115,11 @@ impl<H: Hasher> BatchMerkleProof<H> {
         if indexes.is_empty() {
             return Err(MerkleTreeError::TooFewLeafIndexes);
         }
+        // every leaf must be opened at exactly one index; otherwise, leaves without an index
+        // would not be covered by the proof
+        if indexes.len() != leaves.len() {
+            return Err(MerkleTreeError::InvalidProof);
+        }
 
         let mut buf = [H::Digest::default(); 2];
         let mut v = BTreeMap::new();
